@@ -52,7 +52,9 @@ def unaimedH : Handlers Nat Nat Nat Unit Nat Nat Nat :=
   { hash := id, validate := fun _ => .ret (), check := fun tx => .set 1 tx (fun _ => .ret 0),
     deliver := fun _ => .vget 0 (fun v => .set 2 (v.getD 99) (fun _ => .ret 0)),
     fee := fun _ _ => .ret 0,
-    begin := fun _ => [(false, .get 1 (fun v => .vset 0 v (.ret ())))],
+    begin := fun _ => [(false, .get 1 (fun r => match r with
+      | .val v => .vset 0 v (.ret ())
+      | .errGas => .fail))],
     endb := fun _ => [], gasLimit := 1000000 }
 
 theorem unaimed_hook_breaks_isolation :
